@@ -48,6 +48,10 @@ def run_U(chk, prefixes, rule1="U1", rule2="U2", floor1=40, floor2=10):
     run_U9(chk, prefixes)
     run_U10(chk, prefixes)
     run_U11(chk, prefixes)
+    run_U12(chk, prefixes)
+    run_U13(chk, prefixes)
+    run_U14(chk, prefixes)
+    run_U15(chk, prefixes)
     chk.rule(rule1, "every parameter is read by the function that declares it (nothing the caller supplies is silently ignored)", floor=floor1)
     chk.rule(rule2, "every name bound by unpacking a tuple is read", floor=floor2)
     for f in prog.all_funcs():
@@ -497,6 +501,223 @@ def run_U11(chk, prefixes, rule="U11"):
                     f"only the last iteration decides, an inconsistency met earlier is forgotten (e.g. a pattern whose last site agrees is accepted)")
         if not hits:
             chk.ok(rule, f, f"{f.short}: no overwritten validation flag", sample=False)
+
+
+# ------------------------------------------------------------------ U12 latch-and-break in a loop that also validates its items
+_U12_FIXTURE = """
+def f(pairs):
+    need = False
+    for x, y in pairs:
+        if x.s != y.s:
+            raise ValueError("mismatch")
+        if x.t != y.t:
+            need = True
+            break
+    return need
+"""
+
+
+def _latch_breaks(fn):
+    """[(loop, break, raising if)]: a loop tests every item and raises for an invalid one; another branch of the same body only latches a
+    flag (`need = True`) and then breaks.  The break is right for the flag (nothing more to learn) and wrong for the validation: the items
+    behind the first latching one are never tested."""
+    out = []
+
+    def own(n):
+        for c in ast.iter_child_nodes(n):
+            if isinstance(c, (ast.For, ast.While, ast.FunctionDef, ast.AsyncFunctionDef, ast.Lambda, ast.ClassDef)):
+                continue
+            yield c
+            yield from own(c)
+    for lp in ast.walk(fn):
+        if not isinstance(lp, (ast.For, ast.While)):
+            continue
+        nodes = list(own(lp))
+        raising = [n for n in nodes if isinstance(n, ast.If) and any(isinstance(b, ast.Raise) for b in n.body)]
+        if not raising:
+            continue
+        for n in nodes:
+            if isinstance(n, ast.If) and n.body and isinstance(n.body[-1], ast.Break) and len(n.body) >= 2 \
+                    and all(isinstance(b, ast.Assign) and isinstance(b.value, ast.Constant) and all(isinstance(t_, ast.Name) for t_ in b.targets)
+                            for b in n.body[:-1]):
+                later = [r for r in raising if r is not n]
+                if later:
+                    out.append((lp, n.body[-1], later[0]))
+    return out
+
+
+def run_U12(chk, prefixes, rule="U12"):
+    prog = chk.prog
+    chk.rule(rule, "a loop that validates every item (raises for an invalid one) is not left early by a branch that merely latches a flag", floor=0)
+    fx = [n for n in ast.parse(_U12_FIXTURE).body if isinstance(n, ast.FunctionDef)][0]
+    if len(_latch_breaks(fx)) != 1:
+        raise AnalysisError("U12: the built-in positive fixture is not recognised (rule broken)")
+    for f in prog.all_funcs():
+        if not f.module.name.startswith(tuple(prefixes)) or "torch" in f.module.name:
+            continue
+        if "break" not in A.text(f.node) or "raise" not in A.text(f.node):
+            continue
+        hits = _latch_breaks(f.node)
+        for lp, br, r in hits:
+            chk.bad(rule, (f, br), f"{f.short}: break after a latch in `{A.short(lp, 40)}`", f"{f.short}(): the loop `{A.short(lp, 50)}` raises for an invalid item "
+                    f"(`if {A.short(r.test, 50)}: raise`), but a branch that only sets a flag ends the loop with `break`: the items behind the first one that "
+                    f"sets the flag are never validated (e.g. a later pair of hard-fused legs with mismatched signatures is contracted instead of rejected)")
+        if not hits:
+            chk.ok(rule, f, f"{f.short}: validation loops run to the end", sample=False)
+
+
+# ------------------------------------------------------------------ U13 a variadic operation decides from its first two operands
+def _first_two_only(fn):
+    """[(compare)]: in a function taking `*operands`, a comparison between `operands[0]` and `operands[1]` (two constant positions) decides
+    something for all of them, although the function accepts any number: a third operand that differs is not looked at."""
+    if fn.args.vararg is None:
+        return []
+    V = fn.args.vararg.arg
+    out = []
+    for n in ast.walk(fn):
+        if isinstance(n, ast.Compare):
+            idx = {x.slice.value for x in ast.walk(n) if isinstance(x, ast.Subscript) and isinstance(x.value, ast.Name) and x.value.id == V
+                   and isinstance(x.slice, ast.Constant) and isinstance(x.slice.value, int)}
+            quantified = any(isinstance(g, ast.comprehension) and isinstance(g.iter, (ast.Name, ast.Subscript)) and V in A.text(g.iter) for g in ast.walk(n))
+            if len(idx) >= 2 and not quantified:
+                out.append(n)
+    return out
+
+
+def run_U13(chk, prefixes, rule="U13"):
+    prog = chk.prog
+    chk.rule(rule, "an operation on `*operands` does not decide from a comparison of operands[0] with operands[1] alone", floor=0)
+    fx = ast.parse("def f(*legs):\n    if legs[0].hf != legs[1].hf:\n        return 1\n    return 0\n").body[0]
+    if len(_first_two_only(fx)) != 1:
+        raise AnalysisError("U13: the built-in positive fixture is not recognised (rule broken)")
+    for f in prog.all_funcs():
+        if not f.module.name.startswith(tuple(prefixes)) or "torch" in f.module.name or f.node.args.vararg is None:
+            continue
+        # a function that insists on exactly two operands may compare them
+        V = f.node.args.vararg.arg
+        two = any(isinstance(n, ast.Compare) and isinstance(n.left, ast.Call) and A.call_name(n.left) == "len" and A.text(n.left.args[0]) == V
+                  and isinstance(n.comparators[0], ast.Constant) and n.comparators[0].value == 2 for n in ast.walk(f.node))
+        hits = [] if two else _first_two_only(f.node)
+        for n in hits:
+            chk.bad(rule, (f, n), A.text(n), f"{f.short}(*{V}): `{A.short(n, 60)}` compares the first two operands only, but the function takes any number of them: "
+                    f"with three or more operands a difference that shows only in a later one is missed (e.g. add(a, b, c) with equal fusion records of a and b "
+                    f"and a different one of c takes the path for identical records)")
+        if not hits:
+            chk.ok(rule, f, f"{f.short}(*{V}): tests quantify over all operands", sample=False)
+
+
+# ------------------------------------------------------------------ U14 a mismatch guard compares values, not their truthiness
+def _truthiness_guards(fn):
+    inl = A.Inliner(fn)
+    out = []
+    for g in ast.walk(fn):
+        if not (isinstance(g, ast.If) and any(isinstance(b, ast.Raise) for b in g.body)):
+            continue
+        for c in ast.walk(g.test):
+            if isinstance(c, ast.Compare) and len(c.ops) == 1 and isinstance(c.ops[0], (ast.Eq, ast.NotEq)):
+                l, r = inl.expand(c.left), inl.expand(c.comparators[0])
+                if all(isinstance(x, ast.Call) and A.call_name(x) == "bool" and len(x.args) == 1 for x in (l, r)):
+                    out.append((g, c))
+    return out
+
+
+def run_U14(chk, prefixes, rule="U14"):
+    """`if bool(stored) != bool(given): raise` accepts every pair of values that are both truthy (or both falsy): (True, False), (False, True)
+    and True are "equal".  A guard that rejects a mismatch of two settings compares the settings."""
+    prog = chk.prog
+    chk.rule(rule, "a guard that raises on a mismatch of two values compares the values, not bool() of them", floor=0)
+    fx = ast.parse("def f(d, config):\n    if bool(d['fermionic']) != bool(config.fermionic):\n        raise ValueError\n").body[0]
+    if len(_truthiness_guards(fx)) != 1:
+        raise AnalysisError("U14: the built-in positive fixture is not recognised (rule broken)")
+    for f in prog.all_funcs():
+        if not f.module.name.startswith(tuple(prefixes)) or "torch" in f.module.name:
+            continue
+        if "bool(" not in A.text(f.node) or "raise" not in A.text(f.node):
+            continue
+        hits = _truthiness_guards(f.node)
+        for g, c in hits:
+            chk.bad(rule, (f, c), A.text(c), f"{f.short}(): the guard `if {A.short(g.test, 70)}: raise` compares the truthiness of the two values: settings that differ but are "
+                    f"both truthy -- e.g. fermionic = (True, False) against (False, True) or True -- pass, and the object is rebuilt with other settings "
+                    f"than it was saved with")
+        if not hits:
+            chk.ok(rule, f, f"{f.short}: mismatch guards compare values", sample=False)
+
+
+# ------------------------------------------------------------------ U15 a per-item default set once in front of the loop
+_U15_FIXTURE = """
+def f(project, env):
+    penalty = 100
+    for st in project:
+        if not isinstance(st, Mps):
+            penalty, st = st
+        env.append(make(st, penalty))
+"""
+
+
+def _sticky_defaults(fn):
+    """[(name, init, loop, store)]: `v = <constant>` in front of a loop; inside the loop v is assigned only from the loop item and only under a
+    condition, and read in the same iteration outside that branch.  The constant is meant as the default of *each* item, but after the first
+    item that brings its own value every later item without one inherits it."""
+    out = []
+    for body in [n.body for n in ast.walk(fn) if isinstance(getattr(n, "body", None), list)] + \
+                [n.orelse for n in ast.walk(fn) if isinstance(getattr(n, "orelse", None), list) and n.orelse]:
+        for i, lp in enumerate(body):
+            if not isinstance(lp, ast.For):
+                continue
+            item = {x.id for x in ast.walk(lp.target) if isinstance(x, ast.Name)}
+            inits = {}
+            for prev in body[:i]:
+                if isinstance(prev, ast.Assign) and len(prev.targets) == 1 and isinstance(prev.targets[0], ast.Name) and isinstance(prev.value, ast.Constant) \
+                        and not isinstance(prev.value.value, bool) and prev.value.value is not None:
+                    inits[prev.targets[0].id] = prev
+            for v, init in inits.items():
+                stores = []
+                for n in ast.walk(lp):
+                    if isinstance(n, ast.Assign):
+                        for t_ in n.targets:
+                            if any(isinstance(x, ast.Name) and x.id == v and isinstance(x.ctx, ast.Store) for x in ast.walk(t_)):
+                                stores.append(n)
+                    elif isinstance(n, (ast.AugAssign, ast.AnnAssign)) and isinstance(n.target, ast.Name) and n.target.id == v:
+                        stores.append(None)
+                if len(stores) != 1 or stores[0] is None:
+                    continue
+                sto = stores[0]
+                if sto in lp.body:
+                    continue                    # assigned unconditionally in every iteration
+                if not ({x.id for x in ast.walk(sto.value) if isinstance(x, ast.Name)} & item):
+                    continue                    # not taken from the item
+                if any(isinstance(x, ast.Name) and x.id == v for x in ast.walk(sto.value)):
+                    continue                    # an accumulation
+                # the enclosing `if` of the store sits directly in the loop body and v is read after it in the same iteration
+                encl = next((b_ for b_ in lp.body if isinstance(b_, ast.If) and any(n is sto for n in ast.walk(b_))), None)
+                if encl is None:
+                    continue
+                after = lp.body[lp.body.index(encl) + 1:]
+                reads = [x for st in after for x in ast.walk(st) if isinstance(x, ast.Name) and x.id == v and isinstance(x.ctx, ast.Load)]
+                if reads:
+                    out.append((v, init, lp, sto))
+    return out
+
+
+def run_U15(chk, prefixes, rule="U15"):
+    prog = chk.prog
+    chk.rule(rule, "a default that each item of a loop may override is set for each item, not once in front of the loop", floor=0)
+    fx = [n for n in ast.parse(_U15_FIXTURE).body if isinstance(n, ast.FunctionDef)][0]
+    if [x[0] for x in _sticky_defaults(fx)] != ["penalty"]:
+        raise AnalysisError("U15: the built-in positive fixture is not recognised (rule broken)")
+    for f in prog.all_funcs():
+        if not f.module.name.startswith(tuple(prefixes)) or "torch" in f.module.name:
+            continue
+        if not any(isinstance(n, ast.For) for n in ast.walk(f.node)):
+            continue
+        hits = _sticky_defaults(f.node)
+        for v, init, lp, sto in hits:
+            chk.bad(rule, (f, sto), f"{f.short}: `{A.short(init, 30)}` before `{A.short(lp, 30)}`", f"{f.short}(): `{A.short(init, 40)}` is set once in front of "
+                    f"`{A.short(lp, 40)}`, and `{A.short(sto, 40)}` replaces it only for the items that bring their own value: an item without one that follows "
+                    f"such an item gets that item's value instead of the default (e.g. a bare MPS listed after (penalty, MPS) is projected out with the "
+                    f"small penalty of its predecessor and the optimisation falls back into it)")
+        if not hits:
+            chk.ok(rule, f, f"{f.short}: per-item defaults are per item", sample=False)
 
 
 # ------------------------------------------------------------------ U10 keyword swallowed by a named parameter
